@@ -167,7 +167,7 @@ THREAD_ASSUMPTIONS = [
 PROPS['C13'] = {
     'assumptions': THREAD_ASSUMPTIONS + ['jthread, interruption delivery and detach are not covered yet.'],
     'queries': [
-        dict(name='join_vs_exit', kernel='C13_thread_join.cpp', prefix='jn_', mode='res', shim='shim_sync', inline=20000, R=3, BMAX=80, unwind=3, covers=[0], timeout=3600, mem_gb=24,
+        dict(name='join_vs_exit', kernel='C13_thread_join.cpp', prefix='jn_', mode='res', shim='shim_sync', inline=20000, R=3, BMAX=80, unwind=3, covers=[0], timeout=3600, mem_gb=20,
              cut=['_ZN4pika7threads6detail11thread_data14destroy_threadEv'], unwind_rules=[(r'resume_thread', 6)]),
     ],
 }
